@@ -9,7 +9,7 @@ IsEvent(e) == l <= Len(Log) /\ Log[l].e = e /\ l' = l + 1
 Init == l = 1 /\ scn = "" /\ bad = <<>> /\ drift = <<>> /\ nev = 0
 Reset == /\ IsEvent("Reset") /\ scn' = Ev.scn /\ UNCHANGED <<bad, drift>> /\ nev' = nev + 1
 Totals == /\ IsEvent("Totals")
-          /\ bad' = ReportAll(bad, scn, l, << <<Ev.got = Ev.expect, "C09.NoLostUpdate">> >>)
+          /\ bad' = ReportAll(bad, scn, l, << <<Ev.got = Ev.expect, IF "clause" \in DOMAIN Ev THEN Ev.clause ELSE "C09.NoLostUpdate">> >>)
           /\ UNCHANGED <<scn, drift>> /\ nev' = nev + 1
 AtMost == /\ IsEvent("AtMost")
           /\ bad' = ReportAll(bad, scn, l, << <<Ev.got <= Ev.bound, "C09.BoundHoldsUnderConcurrency">> >>)
